@@ -15,10 +15,13 @@ Everything is on the harness side, nothing in redun is changed:
                              sqlalchemy.exc.OperationalError raised once, in before_commit of commit
                              point k, in the flush that belongs to that commit, or in the autoflush
                              of flush point k.  This is what drives db_retry.
-* every run executes in a forked child process against a file-based sqlite database (under
-  /dev/shm when available); the parent reopens the file with the sqlite3 module, runs
-  PRAGMA foreign_key_check and projects the tables to the abstract state of Backend.tla using
-  redun's own hash functions to name the rows (DESIGN 2.5).
+* every run works on its own file-based sqlite database (under /dev/shm when available).  Crash
+  runs execute in a forked child process that really dies (os._exit inside the commit; up to 8
+  children at a time); fault and recovery runs execute in the harness process, each with a fresh
+  module, backend and Scheduler.  After every run the file is reopened with the sqlite3 module
+  (which rolls back a hot journal), PRAGMA foreign_key_check is run and the tables are projected
+  to the abstract state of Backend.tla using redun's own hash functions to name the rows
+  (DESIGN 2.5).
 
 The workload is the one Backend.tla models: parent(1) -> child(1) -> grand(11 | 111), parent has
 check_valid="shallow"; every task has two versions (an edit), chosen so that every edit of child
